@@ -47,7 +47,7 @@ concurrency:
 jobs:
   j1:
     runs-on:
-      labels: [ubuntu-latest]
+      labels: [self-hosted, linux, x64]
     environment:
       name: e
     concurrency:
@@ -239,6 +239,10 @@ jobs:
     container: img
     environment: e
     concurrency: g
+    steps:
+      - run: echo
+  j4:
+    runs-on: [self-hosted, linux, x64]
     steps:
       - run: echo
 `
